@@ -49,6 +49,14 @@ func C11(e *core.Env) int {
 			cases = append(cases, c)
 		}
 	}
+	// default FUNC with a value-returning FUNC on methods whose target is a pointer to a slice / map (not a struct)
+	for i := 0; i < tierN(e, 9, 60); i++ {
+		cr := rand.New(rand.NewSource(r.Int63()))
+		name := fmt.Sprintf("qc%04d", i)
+		dc := pgen.DefaultCase(cr, name, pgen.DefaultOpts{Format: formats[i%3], Seed: e.Seed*229 + int64(i), NValues: nv, PtrContainer: true})
+		expectOK[name] = true
+		cases = append(cases, dc)
+	}
 	// update methods that carry a default they never apply, with their own target type recurring at an inline
 	// T -> *U position (the update monitor judges them)
 	for i := 0; i < tierN(e, 12, 120); i++ {
